@@ -5,7 +5,7 @@ git -C /repo worktree add --detach /tmp/wt-$lid HEAD -q 2>/dev/null
 mkdir -p /tmp/mut-out/$lid
 P=$(jq -r "select(.id==\"$ID\") | \"TITLE: \(.title)\nSTATEMENT: \(.statement)\nQUANTIFIER: \(.quantifier.text)\nANCHOR FILES: \(.anchors.files|join(\", \"))\"" /verif/properties.jsonl)
 cat <<EOT
-You are testing how well a semantic property of a Rust project is protected. You work ONLY inside the scratch git worktree /tmp/wt-$lid (a checkout of the project \`cardinalsin\`, a time-series database on object storage) and the output directory /tmp/mut-out/$lid. Do not read or write anything under /verif or /repo. The sandbox is offline; build with \`cd /tmp/wt-$lid && CARGO_TARGET_DIR=/tmp/mut-target cargo test --offline ...\` (the first build can take many minutes because other jobs share the machine and the target directory lock: be patient, use long timeouts, never delete the target directory; the shell prints a harmless conda warning).
+You are testing how well a semantic property of a Rust project is protected. You work ONLY inside the scratch git worktree /tmp/wt-$lid (a checkout of the project \`cardinalsin\`, a time-series database on object storage) and the output directory /tmp/mut-out/$lid. Do not read or write anything under /verif or /repo. The sandbox is offline; build with \`cd /tmp/wt-$lid && CARGO_TARGET_DIR=/tmp/mt-$lid CARGO_PROFILE_DEV_DEBUG=0 CARGO_PROFILE_TEST_DEBUG=0 cargo test --offline ...\` (always with exactly these three settings: a private target directory for this worktree — never share a target directory with another checkout, cargo would mix up the builds — and no debug info to save disk; the first build takes 6-10 minutes: be patient, use long timeouts; when you are completely finished delete it with \`rm -rf /tmp/mt-$lid\`; the shell prints a harmless conda warning).
 
 The property (it is supposed to hold for the code as it is now; recent commits in \`git log\` fixed earlier violations of it):
 $P
